@@ -163,5 +163,13 @@ let ghost c0 = cum_pays;""",
     // to every child, from the same table and by the same number as the conversion of the tree does
     final(queue)@.len() >= old(queue)@.len() && final(queue)@.take(old(queue)@.len() as int) == old(queue)@,
     forall|k: int| old(queue)@.len() <= k < final(queue)@.len() ==> carried(cum_pays, player.outcome_view(), outcomes@, (#[trigger] final(queue)@[k]).1), // @ob C15.V.gambit.constant_sum_interior"""),
+        # the offset handed to the conversion and to the output: the midpoint of the smallest and the
+        # largest half-sum over the leaves (= the half-sum itself when the file is constant sum)
+        dict(file="src/gambit.rs", path="fn get_global_info", arm_re=r"\bsum: (?=[\w(])", arm_count=1,
+             as_fn="get_global_info__offset", params="min: f64, max: f64", ret="out", ret_type="f64",
+             obligation="C15.V.gambit.offset_is_midpoint", rules=[],
+             entry="broadcast use fl; broadcast use ideal;\nproof { ax_obeys(); ax_rv_lits(); }",
+             contract="""ensures
+    rv(out) == (rv(min) + rv(max)) / 2real, // @ob C15.V.gambit.offset_is_midpoint"""),
     ],
 )
